@@ -369,16 +369,19 @@ pub fn gen_valid_entry(rng: &mut Rng, cfg: &Cfg, hostile_text: bool, allow_big: 
         let n = fresh(rng, &mut used);
         values.push(POp::Value(n, PVal::Str(gen_string_value(rng, hostile_text, allow_big))));
     }
-    let dim_sets_for_metrics: Vec<Vec<(String, String)>> = (0..1 + rng.below(3))
+    // 1-4 dimension sets of 1-3 keys; each key has a pool of 1-2 values, so that sets overlap, contain
+    // each other and share (key, value) pairs
+    let dim_values: Vec<Vec<String>> = dim_keys.iter().map(|_| (0..1 + rng.below(2)).map(|_| gen_text(rng, hostile_text)).collect()).collect();
+    let dim_sets_for_metrics: Vec<Vec<(String, String)>> = (0..1 + rng.below(4))
         .map(|_| {
-            let mut ks: Vec<String> = vec![];
-            for _ in 0..1 + rng.below(2) {
-                let k = rng.pick(&dim_keys).clone();
+            let mut ks: Vec<usize> = vec![];
+            for _ in 0..1 + rng.below(3) {
+                let k = rng.usize_below(dim_keys.len());
                 if !ks.contains(&k) {
                     ks.push(k);
                 }
             }
-            ks.into_iter().map(|k| (k, gen_text(rng, hostile_text))).collect()
+            ks.into_iter().map(|k| (dim_keys[k].clone(), rng.pick(&dim_values[k]).clone())).collect()
         })
         .collect();
     let mut any_dimmed = false;
